@@ -204,35 +204,41 @@ def r1(ctx: Ctx) -> None:
     fi = ctx.func(DIE, "Die.split_refinable_regions")
     c = canon_function(fi, ctx.model)
     loops = [st for st in c if st[0] == "for"]
-    ctx.require(len(loops) == 1, "split_refinable_regions: expected one redistribution loop")
-    lp = loops[0]
-    it = lp[2]
-    src = (to_poly(("a", ("self",), "ground_regions")) + to_poly(("a", ("self",), "specialized_regions"))).to_s()
-    ctx.site(fi.where, "splitter receives specialised + ground regions", iter=show(it))
-    good_call = it[0] == "c" and it[1] == ("g", "split_rectangles") and len(it[2]) == 3 and it[2][0] == src \
-        and it[2][1] == ("p", 0) and it[2][2] == ("p", 1)
-    if not good_call:
-        # allow an intermediate local holding the result
-        ctx.report(fi.where, f"splitter-call {show(it)}", "the splitter is not called on exactly (specialised + ground regions, aspect_ratio, n)",
-                   lineno=fi.node.lineno)
-    v = lp[1]
-    body = lp[3]
-    ctx.site(fi.where, "every piece goes to exactly one list by its tag")
-    ground = ("expr", ("c", ("a", ("a", ("self",), "_ground_regions"), "append"), (v,), ()))
-    spec = ("expr", ("c", ("a", ("a", ("self",), "_specialized_regions"), "append"), (v,), ()))
-    from framelint.canon import mk_eq
-    from framelint.canon import k_str
-    from .common import kw_value
-    cond = mk_eq(("a", v, "region"), k_str(kw_value(ctx, "KW_GROUND")))
-    ok = len(body) == 1 and body[0][0] == "if" and ((body[0][1] == cond and body[0][2] == (ground,) and body[0][3] == (spec,)))
-    if not ok:
-        ctx.report(fi.where, "partition-back " + "; ".join(show(x) for x in body),
-                   "pieces are not redistributed as 'ground tag -> ground list, otherwise -> specialised list'", lineno=fi.node.lineno)
-    resets = {st[1][2] for st in c if st[0] == "set" and st[1][0] == "a" and st[1][1] == ("self",) and st[2] == ("list", ())}
-    ctx.site(fi.where, "both refinable lists are emptied before redistribution", resets=sorted(resets))
-    if resets != {"_ground_regions", "_specialized_regions"}:
-        ctx.report(fi.where, "list-reset " + " ".join(sorted(resets)), "the refinable lists are not both (and only they) reset before redistribution",
-                   lineno=fi.node.lineno)
+    calls_sr = sorted(set(atoms_of(c, lambda x: x[0] == "c" and x[1] == ("g", "split_rectangles"))), key=skey)
+    if len(loops) != 1 or len(calls_sr) != 1:
+        ctx.site(fi.where, "one splitter call over all refinable regions, one redistribution loop", loops=len(loops), splitter_calls=len(calls_sr))
+        ctx.report(fi.where, f"splitter-structure loops={len(loops)} calls={len(calls_sr)}",
+                   "split_refinable_regions does not make one split_rectangles call on (specialised + ground regions, aspect_ratio, n) followed by one redistribution loop: "
+                   "splitting the lists separately does not guarantee the requested total count", lineno=fi.node.lineno)
+    else:
+        lp = loops[0]
+        it = lp[2]
+        src = (to_poly(("a", ("self",), "ground_regions")) + to_poly(("a", ("self",), "specialized_regions"))).to_s()
+        ctx.site(fi.where, "splitter receives specialised + ground regions", iter=show(it))
+        good_call = it[0] == "c" and it[1] == ("g", "split_rectangles") and len(it[2]) == 3 and it[2][0] == src \
+            and it[2][1] == ("p", 0) and it[2][2] == ("p", 1)
+        if not good_call:
+            # allow an intermediate local holding the result
+            ctx.report(fi.where, f"splitter-call {show(it)}", "the splitter is not called on exactly (specialised + ground regions, aspect_ratio, n)",
+                       lineno=fi.node.lineno)
+        v = lp[1]
+        body = lp[3]
+        ctx.site(fi.where, "every piece goes to exactly one list by its tag")
+        ground = ("expr", ("c", ("a", ("a", ("self",), "_ground_regions"), "append"), (v,), ()))
+        spec = ("expr", ("c", ("a", ("a", ("self",), "_specialized_regions"), "append"), (v,), ()))
+        from framelint.canon import mk_eq
+        from framelint.canon import k_str
+        from .common import kw_value
+        cond = mk_eq(("a", v, "region"), k_str(kw_value(ctx, "KW_GROUND")))
+        ok = len(body) == 1 and body[0][0] == "if" and ((body[0][1] == cond and body[0][2] == (ground,) and body[0][3] == (spec,)))
+        if not ok:
+            ctx.report(fi.where, "partition-back " + "; ".join(show(x) for x in body),
+                       "pieces are not redistributed as 'ground tag -> ground list, otherwise -> specialised list'", lineno=fi.node.lineno)
+        resets = {st[1][2] for st in c if st[0] == "set" and st[1][0] == "a" and st[1][1] == ("self",) and st[2] == ("list", ())}
+        ctx.site(fi.where, "both refinable lists are emptied before redistribution", resets=sorted(resets))
+        if resets != {"_ground_regions", "_specialized_regions"}:
+            ctx.report(fi.where, "list-reset " + " ".join(sorted(resets)), "the refinable lists are not both (and only they) reset before redistribution",
+                       lineno=fi.node.lineno)
     # who writes the region lists
     allowed = {
         "_blockages": {"Die.__init__"},
